@@ -17,7 +17,7 @@ pub const FIELD_ELEMENT_LEN: usize = 24;
 #[derive(PrimeField)]
 // 2^128 + 12451 (https://eprint.iacr.org/2011/326)
 #[PrimeFieldModulus = "340282366920938463463374607431768223907"]
-#[PrimeFieldGenerator = "3"]
+#[PrimeFieldGenerator = "2"]
 #[PrimeFieldReprEndianness = "little"]
 pub struct Fp([u64; 3]);
 
